@@ -166,7 +166,10 @@ def run(tier, rep, st):
     exprlex_cosim(tier, rep)
     # the level table read from the repository must be the model's (also a kernel
     # obligation in Props/ExprTie.lean)
-    bad = CE.levels_tie(get_model())
+    try:
+        bad = CE.levels_tie(get_model())
+    except Exception as e:  # noqa: BLE001  the translator no longer understands the source
+        bad = [("translator", "%s: %s" % (type(e).__name__, str(e)[:300]))]
     results = engine.run_cases(__name__, cases(tier, rep.seed), rep)
     # evaluations = individual expressions, not batches
     rep.evaluations = sum(r.get("evals", 0) for r in results)
